@@ -56,8 +56,12 @@ func init() {
 			var mode string
 			var c Cred
 			fmt.Sscanf(rp.Ops[0], "applied %s %d %d %d", &mode, &c.Flavor, &c.UID, &c.GID)
-			w := newWorld(SrvCfg{Squash: mode, AttrTTL: time.Nanosecond})
+			via := strings.HasSuffix(rp.Ops[0], "via=true")
+			w := newWorld(SrvCfg{Squash: mode, AttrTTL: time.Nanosecond, ViaConn: via})
 			w.noTrace = true
+			if via {
+				appliedOne(r, w, mode, Cred{Flavor: 1, UID: 0, GID: 0}, "f-root-first")
+			}
 			appliedOne(r, w, mode, c, "f")
 			w.Close()
 			return
@@ -432,6 +436,12 @@ func gateCheck(r *Result, rng *rand.Rand) {
 		{"secure-denied-after-update", absnfs.ExportOptions{Secure: true}, "10.0.0.1", 50000, true, true},
 		{"secure-allowed-after-update", absnfs.ExportOptions{Secure: true}, "10.0.0.1", 1023, false, true},
 		{"both-denied-after-update", absnfs.ExportOptions{Secure: true, AllowedIPs: []string{"10.0.0.0/8"}}, "10.0.0.1", 2049, true, true},
+		// a non-empty list that names no address (what splitting an unset environment variable yields, or typos):
+		// the filter is on and nobody is listed
+		{"nobody-listed-empty-entry", absnfs.ExportOptions{AllowedIPs: []string{""}}, "10.0.0.1", 700, true, false},
+		{"nobody-listed-empty-entries", absnfs.ExportOptions{AllowedIPs: []string{"", ""}}, "127.0.0.1", 700, true, false},
+		{"nobody-listed-garbage", absnfs.ExportOptions{AllowedIPs: []string{"not-an-address", "10.0.0.0/99", " "}}, "10.0.0.1", 700, true, false},
+		{"nobody-listed-empty-entry-after-update", absnfs.ExportOptions{AllowedIPs: []string{""}}, "10.0.0.1", 700, true, true},
 	} {
 		s, err := newSrv(fs, cfg.opt)
 		must(err)
@@ -448,7 +458,13 @@ func gateCheck(r *Result, rng *rand.Rand) {
 			s.IP = "10.0.0.1"
 		}
 		root, st := s.Mount("/")
-		if st != 0 {
+		if strings.HasPrefix(cfg.name, "nobody-listed") {
+			// nobody can mount; the calls below name a handle value that would be the root's
+			if st == 0 {
+				r.violate(Violation{Class: "C09/gate", What: cfg.name + ": MNT from 10.0.0.1 was served although AllowedIPs lists no address", Ops: []string{"gate " + cfg.name + " prog=100005 proc=1"}})
+			}
+			root = 1
+		} else if st != 0 {
 			panic("gateCheck: mount failed")
 		}
 		s.IP, s.Port = cfg.ip, cfg.port
@@ -686,11 +702,18 @@ func checkC10(r *Result, rng *rand.Rand, thorough bool) {
 func appliedIdentity(r *Result, rng *rand.Rand) {
 	creds := []Cred{{Flavor: 0}, {Flavor: 0, Raw: []byte{}}, {Flavor: 1, UID: 0, GID: 0}, {Flavor: 1, UID: 1000, GID: 1000}, {Flavor: 1, UID: 1000, GID: 0},
 		{Flavor: 1, UID: 0, GID: 5}, {Flavor: 1, UID: 1000, GID: 1000, Aux: []uint32{0, 2000}}, {Flavor: 1, UID: 65534, GID: 7}}
-	for _, mode := range []string{"root", "all", "none", "Root", "ALL", "None", "rOOt"} {
-		w := newWorld(SrvCfg{Squash: mode, AttrTTL: time.Nanosecond})
+	for k, mode := range []string{"root", "all", "none", "Root", "ALL", "None", "rOOt", "none", "root", "all"} {
+		// the last three runs send all their calls over ONE connection (root's first): the identity of a call is
+		// that call's credential, not the connection's first
+		via := k >= 7
+		w := newWorld(SrvCfg{Squash: mode, AttrTTL: time.Nanosecond, ViaConn: via})
 		w.noTrace = true
-		for i, c := range creds {
-			if i >= 2 && rng.Intn(3) == 0 {
+		order := creds
+		if via {
+			order = append([]Cred{{Flavor: 1, UID: 0, GID: 0}}, creds...)
+		}
+		for i, c := range order {
+			if i >= 3 && rng.Intn(3) == 0 {
 				continue
 			}
 			appliedOne(r, w, mode, c, fmt.Sprintf("f%d", i))
@@ -700,8 +723,8 @@ func appliedIdentity(r *Result, rng *rand.Rand) {
 }
 
 func appliedOne(r *Result, w *World, mode string, c Cred, name string) {
-	rep := w.srv.Call(progNFS, 3, 8, c, argCreate(w.root, name, 0, Sattr{}, nil))
-	r.noteCase(fmt.Sprint("applied", mode, c), true)
+	rep := w.callRaw(progNFS, 3, 8, c, argCreate(w.root, name, 0, Sattr{}, nil))
+	r.noteCase(fmt.Sprint("applied", mode, c, w.cfg.ViaConn), true)
 	r.count("applied-identity")
 	if rep.Err != nil || rep.Status != 0 || rep.AcceptStatus != 0 || len(rep.Data) < 4 || binary.BigEndian.Uint32(rep.Data) != 0 {
 		r.count("applied-identity:create-refused")
@@ -714,7 +737,7 @@ func appliedOne(r *Result, w *World, mode string, c Cred, name string) {
 	}
 	if uint32(gu) != wu || uint32(gg) != wg {
 		r.violate(Violation{Class: "C10/applied-identity", What: fmt.Sprintf("squash %q, flavor %d credential %d:%d: the request ran as %d:%d (owner recorded for the file it created), the squash rule gives %d:%d",
-			mode, c.Flavor, c.UID, c.GID, gu, gg, wu, wg), Ops: []string{fmt.Sprintf("applied %s %d %d %d", mode, c.Flavor, c.UID, c.GID)}})
+			mode, c.Flavor, c.UID, c.GID, gu, gg, wu, wg) + map[bool]string{true: " [all calls on one connection, uid 0 first]", false: ""}[w.cfg.ViaConn], Ops: []string{fmt.Sprintf("applied %s %d %d %d via=%v", mode, c.Flavor, c.UID, c.GID, w.cfg.ViaConn)}})
 	}
 }
 
